@@ -6,7 +6,7 @@
    chunk count as the Go code computes it, proved equal to ceil(n/c) in C17_roundtrip. *)
 From Coq Require Import NArith ZArith List.
 From M Require Import gen.Consts base.Bits64 model.LowEntropy proofs.Bits64Proofs proofs.Bits64LoopProofs proofs.Bits64IntelProofs proofs.LowEntropyProofs proofs.LowEntropyWireProofs.
-From M Require Import base.MiniGo gen.Translated proofs.TranslatedMathextProofs.
+From M Require Import base.MiniGo gen.Translated proofs.TranslatedMathextProofs proofs.TranslatedLowEntropyProofs.
 From M Require model.Wire.
 Import ListNotations.
 Open Scope N_scope.
@@ -47,6 +47,28 @@ Theorem C17_source_repeat32 : forall v : N, v < 2 ^ 32 ->
   xl_mathext_RepeatUint32 (Z.of_N v) = Z.of_N (repeat32 v).
 Proof. exact xl_RepeatUint32_eq_model. Qed.
 Print Assumptions C17_source_repeat32.
+
+(* likewise the integer helpers of pkg/protocol/low_entropy.go: isValidLowEntropyRotation (an int32 enum), lowBits (the
+   source panics for n < 0 - a shift by a negative count - and the translation returns None there), rotateLowEntropyMask
+   (math/bits.RotateLeft64 by its specification; chunk indexes are >= 0 at every call), isLowEntropyProtocol *)
+Theorem C17_source_valid_rotation : forall r, (- 2 ^ 31 <= r < 2 ^ 31)%Z ->
+  xl_protocol_isValidLowEntropyRotation r = valid_rotation r.
+Proof. exact xl_isValidLowEntropyRotation_eq_model. Qed.
+Print Assumptions C17_source_valid_rotation.
+
+Theorem C17_source_lowbits : forall n, (0 <= n)%Z -> xl_protocol_lowBits n = Some (Z.of_N (lowbits (Z.to_N n))).
+Proof. exact xl_lowBits_eq_model. Qed.
+Print Assumptions C17_source_lowbits.
+
+Theorem C17_source_rotate_mask : forall (init : N) (rot ci : Z),
+  init < W64 -> (- 2 ^ 31 <= rot < 2 ^ 31)%Z -> (0 <= ci < 2 ^ 63)%Z ->
+  xl_protocol_rotateLowEntropyMask (Z.of_N init) rot ci = Z.of_N (rotate_mask init rot (Z.to_N ci)).
+Proof. exact xl_rotateLowEntropyMask_eq_model. Qed.
+Print Assumptions C17_source_rotate_mask.
+
+Theorem C17_source_is_le_proto : forall p, xl_protocol_isLowEntropyProtocol p = is_le_proto p.
+Proof. exact xl_isLowEntropyProtocol_eq_model. Qed.
+Print Assumptions C17_source_is_le_proto.
 
 (* the position-by-position rendering of the Intel SDM pseudo code (bit index m, counter k; base/Bits64.v
    pdep_intel / pext_intel) equals the structural definition: for every operand width n on the mask's low n bits,
